@@ -120,6 +120,8 @@ def check_c15(rep):
     sa = [(f"shut-{p}-{s}", p, *G.shutdown_at(s, p)) for i, s in enumerate(seeds(500 if q else 6000, 3))
           for p in (("at4",) if i % 2 == 0 else ("at5",))]
     run_generated(rep, "shutdown at chosen instants, k iterations, optional re-open", sa)
+    from . import p_client_checks as A
+    A.check_c15_api(rep, 500 if q else 8000)
 
 
 def check_c16(rep):
